@@ -585,8 +585,10 @@ fn random_case(out: &mut Out, idx: u64, rng: &mut Rng, real: bool) {
                 let i = rng.usize(conns.len());
                 let (p, c) = conns.remove(i);
                 Op::Closed(p, c)
-            } else {
+            } else if rng.chance(1, 3) {
                 Op::Closed(p, rng.usize(next_c + 1))
+            } else {
+                Op::Send(p)
             }
         } else if roll < 56 {
             let k = *rng.pick(&["cond", "noaddr", "aborted", "noaddr"]);
@@ -668,19 +670,23 @@ pub fn run(args: &Args, out: &mut Out) {
         return;
     }
     let mut idx = 0u64;
-    // bounded-exhaustive part
+    // bounded-exhaustive part: every sequence of length <= L over an alphabet
     if args.count == 0 {
-        let full = alphabet(true);
-        let small = alphabet(false);
-        let (full_len, small_len) = if args.thorough { (5, 6) } else { (3, 5) };
-        for len in 1..=full_len {
+        let full = alphabet(true); // 15 ops
+        let core8 = alphabet(false); // 8 ops
+        let core5: Vec<Op> = core8[..5].to_vec(); // send, est, closed, dialfail, response
+        let (l15, l8, l5) = if args.thorough { (5, 6, 0) } else { (3, 5, 6) };
+        for len in 1..=l15 {
             enumerate(out, &mut idx, &full, len, "exh15");
         }
-        for len in (full_len + 1)..=small_len {
-            enumerate(out, &mut idx, &small, len, "exh8");
+        for len in (l15 + 1)..=l8 {
+            enumerate(out, &mut idx, &core8, len, "exh8");
+        }
+        for len in (l8 + 1)..=l5 {
+            enumerate(out, &mut idx, &core5, len, "exh5");
         }
     }
-    let n = args.n(1500, 60_000);
+    let n = args.n(1500, 40_000);
     for i in 0..n {
         let mut rng = Rng::for_case(args.seed, i);
         random_case(out, idx, &mut rng, i % 4 == 3);
